@@ -172,13 +172,15 @@ pub struct ModelRun<'a> {
     pub created: Vec<String>,
     /// per-message responses of an execute_multi entry
     pub multi: Vec<MResp>,
+    /// C13 differential: decide the validity of this node's response the wrong way round
+    pub flip_validity_of: Option<usize>,
 }
 
 type MResult = Result<MResp, ()>;
 
 impl<'a> ModelRun<'a> {
     pub fn new(prog: &'a Program, info: &'a WorldInfo, st: MState, block: (u64, u64, String)) -> Self {
-        ModelRun { prog, info, st, trace: vec![], block, created: vec![], multi: vec![] }
+        ModelRun { prog, info, st, trace: vec![], block, created: vec![], multi: vec![], flip_validity_of: None }
     }
 
     fn ring(&self) -> &[String] {
@@ -259,7 +261,7 @@ impl<'a> ModelRun<'a> {
         if nd.fail {
             return Err(());
         }
-        if invalid_response(nd) {
+        if invalid_response(nd) != (self.flip_validity_of == Some(idx)) {
             return Err(());
         }
         let mut events = vec![NEvent { ty: entry_event.to_string(), attrs: vec![(CONTRACT_ATTR.to_string(), contract.to_string())] }];
